@@ -240,7 +240,8 @@ def ev(e, env):
         args = [ev(a, env) for a in e.args]
         fn = {"min": min, "max": max, "len": len, "bool": bool, "int": int, "abs": abs,
               "any": any, "all": all, "tuple": tuple, "set": frozenset, "list": tuple,
-              "frozenset": frozenset, "sorted": lambda x: tuple(sorted(x))}.get(e.func.id)
+              "frozenset": frozenset, "sorted": lambda x: tuple(sorted(x)),
+              "range": lambda *a: tuple(range(*a)) if len(range(*a)) <= 70000 else None}.get(e.func.id)
         if fn:
             return fn(*args)
         if e.func.id == "next" and len(args) == 2:
